@@ -520,6 +520,22 @@ def lookalike_family():
     yield ("F/dropout/custom.Dropout", _model(nodes, [I0], Y, [_const("ratio", np.array(0.5, np.float32)), _const("tm_true", np.array(True))], functions=[fn]))
 
 
+def side_rank_family():
+    """Reshape -> binary elementwise op with a ONE-ELEMENT constant of rank 0..3 -> Reshape back: folding the pair is only
+    right when the constant's rank does not exceed the source rank (numpy broadcasting left-pads otherwise)"""
+    for src, mid in (([6], [2, 3]), ([2, 3], [6]), ([1, 6], [6])):
+        for op in ("Max", "Min", "Add", "Mul", "Sub"):
+            for cr in (0, 1, 2, 3):
+                for side in ("right", "left"):
+                    c = _const("c", np.full((1,) * cr, 0.5, np.float32))
+                    ins = ["a", "c"] if side == "right" else ["c", "a"]
+                    nodes = [H.make_node("Reshape", ["in_0", "s1"], ["a"], name="R1"), H.make_node(op, ins, ["b"], name="Op"),
+                             H.make_node("Reshape", ["b", "s2"], ["y"], name="R2")]
+                    inits = [c, _const("s1", np.array(mid, np.int64)), _const("s2", np.array(src, np.int64))]
+                    yield (f"S/reshape_pair_side_const/{'x'.join(map(str, src))}->{'x'.join(map(str, mid))}/{op}/{side}/rank{cr}",
+                           _model(nodes, [_vi("in_0", F, src)], [_vi("y", F, src)], inits))
+
+
 def all_graphs():
-    for fam in (lookalike_family, misc_family, multi_family, capture_family, table_ops_family, cast_family, reshape_family, transpose_family):
+    for fam in (lookalike_family, side_rank_family, misc_family, multi_family, capture_family, table_ops_family, cast_family, reshape_family, transpose_family):
         yield from fam()
